@@ -145,6 +145,16 @@ class Normalizer:
     def atom_name(self, e):
         c = chain(e)
         if c is not None:
+            # alias expansion: a single-assignment local bound to another chain
+            head, _, rest = c.partition(".")
+            seen = set()
+            while rest and head in self.env and head not in seen and head not in self.penv:
+                seen.add(head)
+                tgt = chain(self.env[head])
+                if tgt is None:
+                    break
+                c = tgt + "." + rest
+                head, _, rest = c.partition(".")
             return self.rename.get(c, c)
         txt = " ".join(ast.unparse(e).split())
         return self.rename.get(txt, txt)
